@@ -5,7 +5,7 @@
 cd /verif
 mkdir -p work/benign
 : > work/benign_summary.txt
-for d in benign/${1:-B*}; do
+for d in $(ls -d benign/${1:-B*}); do
   b=$(basename $d)
   [ -z "$(git -C /repo status --short)" ] || { echo "/repo not clean before $b" >> work/benign_summary.txt; exit 2; }
   git -C /repo apply /verif/$d/patch.diff || { echo "$b patch does not apply" >> work/benign_summary.txt; continue; }
